@@ -34,7 +34,11 @@ class CycleNode(Node):
         super().__init__(token)
         self.name = name
         self.items = tuple(items)
-        self.cycle_hash = hash((self.name, self.items))
+        # The key of this tag's cycle group in the render context. It must not
+        # depend on `hash()`: string hashes differ between processes, and a
+        # pickled template has to keep sharing its groups with templates that
+        # the unpickling process parses.
+        self.cycle_hash = (self.name, tuple(str(item) for item in self.items))
         self.blank = False
 
     def __str__(self) -> str:
